@@ -81,6 +81,14 @@ unit(id="localvariables.from_params", src=LV, path=[("impl", "LocalVariables<'a>
           "r.variables == lvm_from(params) && r.lower_layer is None && r.function is None && !r.in_loop && r.interpreter == interpreter"),
      ], **_ENV)
 
+unit(id="localvariables.drop_layer", src=LV, path=[("impl", "LocalVariables<'a>"), ("fn", "drop_layer")], impl=_LI,
+     ensures=[("localvariables.drop_layer.yields_the_bindings_of_this_layer_only", ["C06"], "r == self.variables")], **_ENV)
+unit(id="localvariables.contains_key", src=LV, path=[("impl", "LocalVariables<'a>"), ("fn", "contains_key")], impl=_LI, fn_attrs=_NODEC,
+     ensures=[
+         ("localvariables.contains_key.a_name_bound_in_the_innermost_layer_is_known", ["C06"],
+          "self.variables@.contains_key(*name) ==> r"),
+     ], **_ENV)
+
 # ---------------------------------------------------------------- obligations proved elsewhere that ARE scoping statements
 # (who opens a layer, what is bound where, what a closure is folded against): also tagged C06
 _C06 = {
